@@ -24,6 +24,7 @@ abbrev Table := List (Int × Int)
 inductive Val
   | coords (c : Coords)
   | table (t : Table)
+  | ptr (id : Nat)              -- a reference to the point object `id` (field `point` of a key)
 deriving DecidableEq, Repr, Inhabited
 
 /-- a cell: (object id, field) -/
@@ -44,6 +45,7 @@ inductive Out
   | pt (p : Curve.Pt)                      -- a freshly created point (or INFINITY)
   | obj (id : Nat)                          -- one of the shared objects itself (`scale()` returns `self`)
   | state (c : Coords) (t : Table)          -- `__getstate__`
+  | pair (a b : Int)                        -- key level: a signature (r, s) / the encoded coordinates
 deriving DecidableEq, Repr, Inhabited
 
 /-- an operand that is NOT one of the shared objects: the result of a previous call (a freshly created point, or
@@ -58,6 +60,8 @@ deriving Repr, Inhabited
 structure Loc where
   self : Nat
   other : Nat := 0
+  key : Nat := 0                -- the key object (for the key-level operations)
+  newObj : Nat := 0             -- the point object this activation creates and publishes (`VerifyingKey.precompute`)
   selfFresh : Fresh := .shared
   otherFresh : Fresh := .shared
   otherInf : Bool := false      -- the `other` argument is INFINITY (then `other` is meaningless)
@@ -67,6 +71,9 @@ structure Loc where
   tb : Table := []              -- snapshot of `other.__precompute`
   ka : Int := 0                 -- integer argument(s)
   kb : Int := 0
+  kc : Int := 0
+  kd : Int := 0
+  ke : Int := 0
   r1 : Out := .none             -- results of calls
   r2 : Out := .none
   out : Out := .none            -- value returned by this activation
@@ -75,10 +82,12 @@ deriving Repr, Inhabited
 def Loc.obj (s : Loc) : Obj → Nat
   | .self => s.self
   | .other => s.other
+  | .key => s.key
 
 def Loc.fresh (s : Loc) : Obj → Fresh
   | .self => s.selfFresh
   | .other => s.otherFresh
+  | .key => .shared
 
 /-- the structured method language -/
 inductive M where
@@ -107,6 +116,7 @@ def bindRes {α : Type} (r : Res α) (kx : PyErr → P) (k : α → P) : P :=
 def freshVal (fr : Fresh) (f : Fld) : Val :=
   match f with
   | .pre => .table []
+  | .point => .ptr 0
   | .coords => match fr with
     | .pj P => .coords (P.x, P.y, P.z)
     | _ => .coords (0, 0, 1)
@@ -168,11 +178,15 @@ infixr:60 " ;; " => M.seq
 
 def asCoords : Val → Coords
   | .coords c => c
-  | .table _ => (0, 0, 0)
+  | _ => (0, 0, 0)
 
 def asTable : Val → Table
   | .table t => t
-  | .coords _ => []
+  | _ => []
+
+def asPtr : Val → Nat
+  | .ptr id => id
+  | _ => 0
 
 def mkPJ (i : ObjInfo) (c : Coords) : Curve.PJ := ⟨i.curve, c.1, c.2.1, c.2.2, i.order, i.generator⟩
 
@@ -413,6 +427,103 @@ def mMulAdd : M :=
   .ite (fun s => !s.ta.isEmpty) loadTB .skip ;;
   .ite (fun s => !s.ta.isEmpty && !s.tb.isEmpty) (mMulSum info) .skip ;;
   mMulAddTail info
+
+/-! ## key level: `ecdsa.Public_key.verifies`, `ecdsa.Private_key.sign`, `keys.VerifyingKey.precompute`, `_raw_encode`,
+`_compressed_encode`.  `key` = the key object (its field `point` is a cell holding a reference), `self` = the curve
+generator `G` (shared by every key of the curve), `other` = the point object just loaded from the field. -/
+
+def loadPtr : M := .load .key .point fun s v => { s with other := asPtr v }
+
+/-- `G.order()` -/
+def orderOf (i : ObjInfo) : Int :=
+  match i.order with
+  | some n => n
+  | none => 0
+
+/-- `Public_key.verifies(hash, Signature(r, s))`: `kc` = hash, `kd` = r, `ke` = s -/
+def mKeyVerifies : M :=
+  .ite (fun s => s.kd < 1 || s.kd > orderOf (info s.self) - 1) (.ret fun _ => .ok (.bool false)) .skip ;;
+  .ite (fun s => s.ke < 1 || s.ke > orderOf (info s.self) - 1) (.ret fun _ => .ok (.bool false)) .skip ;;
+  .pure (fun s => do
+    let n := orderOf (info s.self)
+    let c ← Curve.inverseMod s.ke n
+    .ok { s with ka := pmod (s.kc * c) n, kb := pmod (s.kd * c) n }) ;;
+  .ite (fun _ => true)
+    (loadPtr ;;
+     .call .self "mul_add" (mMulAdd info) (fun s => { self := s.self, other := s.other, ka := s.ka, kb := s.kb })
+       (fun s o => { s with r1 := o }))
+    (.call .self "__rmul__" (mRmul info) (fun s => { self := s.self, ka := s.ka }) (fun s o => { s with r1 := o }) ;;
+     loadPtr ;;
+     .call .other "__rmul__" (mRmul info) (fun s => { self := s.other, ka := s.kb }) (fun s o => { s with r2 := o }) ;;
+     .callR .self "__add__" (mAdd info)
+       (fun s => { self := s.self, other := s.other, selfFresh := freshOf s.r1, otherFresh := freshOf s.r2 })
+       (fun s o => { s with r1 := o })) ;;
+  .callR .self "__eq__" (mEq info) (fun s => { self := s.self, otherInf := true, selfFresh := freshOf s.r1 })
+    (fun s o => { s with r2 := o }) ;;
+  .ite (fun s => isTrue s.r2) (.ret fun _ => .ok (.bool false)) .skip ;;
+  .callR .self "x" (mX info) (fun s => { self := s.self, selfFresh := freshOf s.r1 }) (fun s o => { s with r2 := o }) ;;
+  .ret fun s => match s.r2 with
+    | .int x => .ok (.bool (pmod x (orderOf (info s.self)) == s.kd))
+    | _ => .error .typeError
+
+/-- `Private_key.sign(hash, random_k)`: `kc` = hash, `ka` = random_k, `kd` = the secret multiplier -/
+def mKeySign : M :=
+  .pure (fun s =>
+    let n := orderOf (info s.self)
+    let k := pmod s.ka n
+    .ok { s with ka := k, kb := k + n, ke := k + n + n }) ;;
+  .ite (fun s => bitLength s.kb.toNat == bitLength (orderOf (info s.self)).toNat)
+    (.call .self "__rmul__" (mRmul info) (fun s => { self := s.self, ka := s.ke }) (fun s o => { s with r1 := o }))
+    (.call .self "__rmul__" (mRmul info) (fun s => { self := s.self, ka := s.kb }) (fun s o => { s with r1 := o })) ;;
+  .callR .self "x" (mX info) (fun s => { self := s.self, selfFresh := freshOf s.r1 }) (fun s o => { s with r2 := o }) ;;
+  .pure (fun s => match s.r2 with
+    | .int x => .ok { s with kb := pmod x (orderOf (info s.self)) }
+    | _ => .error .typeError) ;;
+  .ite (fun s => s.kb == 0) (.ret fun _ => .error .rsZero) .skip ;;
+  .pure (fun s => do
+    let n := orderOf (info s.self)
+    let ki ← Curve.inverseMod s.ka n
+    .ok { s with ke := pmod (ki * (s.kc + pmod (s.kd * s.kb) n)) n }) ;;
+  .ite (fun s => s.ke == 0) (.ret fun _ => .error .rsZero) .skip ;;
+  .ret fun s => .ok (.pair s.kb s.ke)
+
+/-- `VerifyingKey.precompute(lazy)`: `ka ≠ 0` = lazy; `newObj` = the point object it creates and publishes -/
+def mKeyPrecompute : M :=
+  loadPtr ;;
+  .call .other "from_affine" (mFromAffine info) (fun s => { self := s.other, other := s.other, ka := 1 })
+    (fun s o => { s with r1 := o }) ;;
+  .store .key .point (fun s => .ptr s.newObj) ;;
+  .ite (fun s => s.ka == 0)
+    (loadPtr ;;
+     .call .other "__mul__" (mMul info) (fun s => { self := s.other, ka := 2 }) (fun s o => { s with r2 := o }))
+    .skip ;;
+  .ret fun _ => .ok .none
+
+def pairOf (rx ry : Out) (f : Int → Int) : Res Out :=
+  match rx, ry with
+  | .int x, .int y => .ok (.pair x (f y))
+  | _, _ => .error .typeError
+
+/-- `VerifyingKey._raw_encode()`: the pair (x, y) that is then serialised -/
+def mKeyRawEncode : M :=
+  loadPtr ;;
+  .call .other "x" (mX info) (fun s => { self := s.other }) (fun s o => { s with r1 := o }) ;;
+  loadPtr ;;
+  .call .other "y" (mY info) (fun s => { self := s.other }) (fun s o => { s with r2 := o }) ;;
+  .ret fun s => pairOf s.r1 s.r2 id
+
+/-- `VerifyingKey._compressed_encode()`: x and the parity of y -/
+def mKeyCompressedEncode : M :=
+  loadPtr ;;
+  .call .other "x" (mX info) (fun s => { self := s.other }) (fun s o => { s with r1 := o }) ;;
+  loadPtr ;;
+  .call .other "y" (mY info) (fun s => { self := s.other }) (fun s o => { s with r2 := o }) ;;
+  .ite (fun s => match s.r2 with
+      | .int y => pmod y 2 == 1
+      | _ => false)
+    (.ret fun s => pairOf s.r1 s.r2 fun _ => 1)
+    (.ret fun s => pairOf s.r1 s.r2 fun _ => 0) ;;
+  .ret fun _ => .ok .none
 
 /-- the value of a call result that is a point: a fresh point, or one of the shared objects as currently stored -/
 def outPt (heapC : Nat → Coords) : Out → Curve.Pt
